@@ -346,6 +346,18 @@ def search(ctx, hints):
                       "spec": {"t": "cols", "rem": "drop",
                                "items": [[{"t": "union", "items": [E("T", "StandardScaler"), E("T", "MinMaxScaler")]}, ["x1"]],
                                          [E("T", "Normalizer"), ["x10"]]]}})
+    # the same with SEVERAL consecutive collisions: the schema already holds the stem plus the first suffixes the name
+    # generator would try (a, a0, a1, a2 / counters starting at 0 or 1 / a digit stem), every other column consumed by
+    # its own transformer, unions of two and three members
+    for fam in (["a", "a0", "a1", "a2"], ["a", "a1", "a2", "a3"], ["v", "v0", "v00", "v1", "v01"], ["a0", "a00", "a01", "a1"],
+                ["c", "c0", "c1", "c2", "c3", "c4"], ["a", "a0", "b", "b0", "a1", "b1"]):
+        for members in (2, 3):
+            union = {"t": "union", "items": [E("T", ("StandardScaler", "MinMaxScaler", "MaxAbsScaler")[i]) for i in range(members)]}
+            for kind in ("df", "list"):
+                for c in fam[1:]:       # one consumer at a time: the oracle identifies a step by its class
+                    cases.append({"op": "dot", "kind": kind, "names": fam, "data_seed": 1,
+                                  "spec": {"t": "cols", "rem": "drop",
+                                           "items": [[union, [fam[0]]], [E("T", "Normalizer"), [c]]]}})
     # KNOWN FINDING probe (input class excluded from the generator, see ASSUMPTIONS): named columns below an
     # integer-column entry / after a 'passthrough' step, where _pipeline_info only has a list of names left
     cases.append({"op": "dot", "probe": "named-columns-on-list-data", "kind": "df", "names": ["a", "b", "c"],
